@@ -183,6 +183,37 @@ mod imp {
             ps.push(t(tail)); ps.push(P::Blank); ps.push(t("LBrace")); ps.push(t("RBrace"));
             emit_lex(&format!("look:{}:{}:{}", KINDS[a].0, li, tail), &ps, r);
         }}}
+        // nested bracket structures: blocks inside ( / [ inside blocks ..., each level holding several statements
+        // separated by a newline or by `;`, so that the saved / restored ( [ depth matters after every `}`
+        fn nest(r: &mut Rng, depth: usize, ps: &mut Vec<P>, t: &dyn Fn(&str) -> P) {
+            let n = r.range_i64(1, 4);
+            for j in 0..n {
+                if j > 0 { if r.chance(2, 3) { ps.push(P::NL); if r.chance(1, 3) { ps.push(P::Blank); } } else { ps.push(t("Semicolon")); ps.push(P::Blank); } }
+                match if depth == 0 { 0 } else { r.below(6) } {
+                    0 | 1 => { ps.push(t("Identifier")); if r.chance(1, 4) { ps.push(t("PlusPlus")); } }
+                    2 => { ps.push(t("Identifier")); ps.push(t("LParen")); nest(r, depth - 1, ps, t); ps.push(t("RParen")); }
+                    3 => { ps.push(t("LBracket")); nest(r, depth - 1, ps, t); ps.push(t("RBracket")); }
+                    4 => { ps.push(t("If")); ps.push(P::Blank); ps.push(t("Identifier")); ps.push(P::Blank); ps.push(t("LBrace")); ps.push(P::NL);
+                           nest(r, depth - 1, ps, t); ps.push(P::NL); ps.push(t("RBrace")); }
+                    _ => { ps.push(t("Fn")); ps.push(t("LParen")); ps.push(t("Identifier")); ps.push(t("RParen")); ps.push(P::Blank); ps.push(t("LBrace"));
+                           if r.chance(2, 3) { ps.push(P::NL); } nest(r, depth - 1, ps, t); if r.chance(2, 3) { ps.push(P::NL); } ps.push(t("RBrace")); }
+                }
+            }
+        }
+        for i in 0..(n_random / 3).max(200) {
+            let mut ps: Vec<P> = Vec::new();
+            // always at least: call( lambda { block { } NL stmt NL stmt } , arg )
+            if i % 2 == 0 {
+                ps.extend([t("Identifier"), t("LParen"), t("Fn"), t("LParen"), t("Identifier"), t("RParen"), P::Blank, t("LBrace"), P::NL]);
+                nest(r, 2, &mut ps, &t);
+                ps.extend([P::NL, t("If"), P::Blank, t("Identifier"), P::Blank, t("LBrace"), P::NL]);
+                nest(r, 1, &mut ps, &t);
+                ps.extend([P::NL, t("RBrace"), P::NL]);
+                nest(r, 1, &mut ps, &t);
+                ps.extend([P::NL, t("Return"), P::Blank, t("Identifier"), P::NL, t("RBrace"), t("Comma"), P::Blank, t("Int"), t("RParen")]);
+            } else { nest(r, 4, &mut ps, &t); }
+            emit_lex(&format!("nest:{}", i), &ps, r);
+        }
         // statement-like templates joined by random separators
         let stmts: Vec<Vec<P>> = vec![
             vec![t("Let"), P::Blank, t("Identifier"), P::Blank, t("Eq"), P::Blank, t("Int")],
@@ -358,6 +389,18 @@ mod imp {
                 let t = self.name("t");
                 body.push(S::Let(false, t.clone(), self.int_expr(1)));
                 self.ints.push(t);
+            }
+            // a block nested in the lambda's block, followed by more statements (the lambda may sit inside ( or [)
+            if self.r.chance(1, 3) {
+                let c = self.cond();
+                let t2 = self.name("t");
+                let inner = vec![S::Let(false, self.name("t"), self.int_expr(1))];
+                body.push(S::If(c, inner, if self.r.chance(1, 2) { Some(vec![S::Let(false, self.name("t"), self.int_expr(0))]) } else { None }, self.r.chance(1, 3)));
+                body.push(S::Let(false, t2.clone(), self.int_expr(1)));
+                self.ints.push(t2);
+                let t3 = self.name("t");
+                body.push(S::Let(false, t3.clone(), self.int_expr(1)));
+                self.ints.push(t3);
             }
             let form = self.r.below(4);
             if form == 0 && body.is_empty() {
